@@ -477,13 +477,19 @@ def main():
         Db('hdl_v2_search_validates_first', before(v2, 'SemaDBHandlers', 'HandleSearchPoints', ['utils.DecodeValid[models.SearchRequest]', 'req.Query.ValidateSchema(collection.IndexSchema)'], 'clusterNode.SearchPoints', 'v2 search'))
         Db('hdl_v1_create_validates_first', before(v1, 'SemaDBHandlers', 'HandleCreateCollection', ['utils.DecodeValid[CreateCollectionRequest]'], 'clusterNode.CreateCollection', 'v1 create'))
         direct = re.search(r'IndexSchema\["vector"\]\.VectorVamana\.', v1) is not None
+        helper_typed = False
         if direct:
             dim_pt = 'len(point.Vector) != int(collection.IndexSchema["vector"].VectorVamana.VectorSize)'
             dim_rq = 'len(req.Vector) != int(collection.IndexSchema["vector"].VectorVamana.VectorSize)'
             guard = []
         else:
             # guarded shape: a helper returns the (possibly nil) parameters and every handler tests for nil
-            need(r'func\s+vectorIndexParams\s*\([^)]*\)\s*\*models\.IndexVectorVamanaParameters\s*\{\s*return\s+\w+\.IndexSchema\["vector"\]\.VectorVamana\s*\}', v1, 'v1 vectorIndexParams helper')
+            # two shapes of the helper: it hands out the vamana block of the property "vector" whatever the type of the
+            # property is, or only when the property IS a vamana index
+            untyped = re.search(r'func\s+vectorIndexParams\s*\([^)]*\)\s*\*models\.IndexVectorVamanaParameters\s*\{\s*return\s+\w+\.IndexSchema\["vector"\]\.VectorVamana\s*\}', v1) is not None
+            if not untyped:
+                need(r'func\s+vectorIndexParams\s*\([^)]*\)\s*\*models\.IndexVectorVamanaParameters\s*\{(\s*//[^\n]*)*\s*if\s+isv,\s*ok\s*:=\s*\w+\.IndexSchema\["vector"\];\s*ok\s*&&\s*isv\.Type\s*==\s*models\.IndexTypeVectorVamana\s*\{\s*return\s+isv\.VectorVamana\s*\}\s*return\s+nil\s*\}', v1, 'v1 vectorIndexParams helper')
+            helper_typed = not untyped
             dim_pt, dim_rq = 'len(point.Vector) != int(params.VectorSize)', 'len(req.Vector) != int(params.VectorSize)'
             guard = ['params := vectorIndexParams(collection)', 'if params == nil {']
             for fn, call in (('HandleGetCollection', 'clusterNode.GetShardsInfo'), ('HandleInsertPoints', 'clusterNode.InsertPoints'),
@@ -498,6 +504,7 @@ def main():
         Db('hdl_v1_delete_validates_first', before(v1, 'SemaDBHandlers', 'HandleDeletePoints', ['utils.DecodeValid[DeletePointsRequest]'], 'clusterNode.DeletePoints', 'v1 delete'))
         Db('hdl_v1_search_validates_first', before(v1, 'SemaDBHandlers', 'HandleSearchPoints', ['utils.DecodeValid[SearchPointsRequest]', dim_rq] + guard, 'clusterNode.SearchPoints', 'v1 search'))
         Db('hdl_v1_assumes_vector_vamana', direct)
+        Db('hdl_v1_helper_checks_type', (not direct) and helper_typed)
 
         # ---- v1 limits
         b = func_body(v1, 'Validate', 'CreateCollectionRequest')
